@@ -76,6 +76,58 @@ Theorem sc_read_prefix_refuted :
 Proof. exact sc_read_prefix_refuted_lemma. Qed.
 Print Assumptions sc_read_prefix_refuted.
 
-(* Not proved here (DESIGN section 5 names it): desugar_rows_total - the bound rows indexed by
-   arity in symbols/decldesugar.go:127-172 are not modelled; that code is reached only through
-   parser-produced declarations and is exercised by the fuzz loop. *)
+(* ---- bound rows of a declaration (added when the check was strengthened after seeding).
+   Model Front/DeclRows.v: the row test of analysis.CheckDecl and the arity-indexed row loop of
+   symbols.desugarOneDecl (symbols/decldesugar.go:113-172); the recursive call for a reference to
+   a unary predicate enters as the class of the cell, the theorems hold for every class. *)
+From MV Require Import Front.DeclRows Front.DeclRowsProofs.
+Close Scope Z_scope.
+
+(* desugar_rows_total: for EVERY arity, every list of bound rows none of which is longer than the
+   arity, every class of every entry and either value of the desugared() marker, desugarOneDecl
+   ends in a value or an error - it never indexes past the arity-sized slice. *)
+Theorem desugar_rows_total : forall (desugared : bool) (ar : nat) (rows : list (list cellk)),
+  (forall r, In r rows -> length r <= ar) -> desugar_rows desugared ar rows <> DPanic.
+Proof. exact desugar_rows_total_lemma. Qed.
+Print Assumptions desugar_rows_total.
+
+Example desugar_rows_total_value :
+  (forall r, In r [[CW; CRefOk; CRefSv]; [CW; CW; CW]] -> length r <= 3) /\
+  desugar_rows false 3 [[CW; CRefOk; CRefSv]; [CW; CW; CW]] = DErr /\
+  desugar_rows false 3 [[CW; CRefOk; CW]; [CW; CW; CW]] = DOk.
+Proof.
+  split; [intros r [<-|[<-|[]]]; cbn; repeat constructor | split; vm_compute; reflexivity].
+Qed.
+
+(* the pipeline of analysis.Analyze on one declaration - CheckDecl, then CheckAndDesugar - for ALL
+   declarations (any descriptors, any rows): a value or an error, never a panic. CheckDecl's row
+   test is what makes the hypothesis of desugar_rows_total true. *)
+Theorem front_decl_total : forall (synthetic desugared : bool) (ar : nat) (rows : list (list cellk)),
+  front_decl synthetic desugared ar rows <> DPanic.
+Proof. exact front_decl_total_lemma. Qed.
+Print Assumptions front_decl_total.
+
+(* the hypothesis is needed: a row of well-formed bounds longer than the arity indexes past the slice *)
+Theorem desugar_rows_long_row_panics : forall (ar k : nat),
+  ar < k -> desugar_rows false ar [repeat CW k] = DPanic.
+Proof. exact desugar_rows_long_panics_lemma. Qed.
+Print Assumptions desugar_rows_long_row_panics.
+
+(* a checker that leaves before the row test for declarations carrying synthetic() (seeded change
+   C10-2) lets `Decl foo(X) descr [synthetic()] bound [/number, /string].` through to the panic *)
+Theorem front_decl_skip_synthetic_refuted :
+  check_rows_with true true 1 [[CW; CW]] = true /\
+  front_decl_with true true false 1 [[CW; CW]] = DPanic /\
+  front_decl true false 1 [[CW; CW]] = DErr.
+Proof. vm_compute. repeat split. Qed.
+Print Assumptions front_decl_skip_synthetic_refuted.
+
+(* typeBoundForPredicate reads Bounds[i].Bounds[0] of a unary declaration: total once CheckDecl
+   has accepted the rows of that declaration *)
+Theorem type_bound_total : forall (synthetic : bool) (rows : list (list cellk)),
+  check_rows synthetic 1 rows = true -> type_bound rows = DOk.
+Proof. exact type_bound_total_lemma. Qed.
+Print Assumptions type_bound_total.
+
+Example type_bound_total_value : check_rows false 1 [[CW]; [CW]] = true /\ type_bound [[CW]; []] = DPanic.
+Proof. vm_compute. split; reflexivity. Qed.
